@@ -68,6 +68,7 @@ func (f *Gte) Call(s *slip.Scope, args slip.List, depth int) slip.Object {
 			if c < 0 {
 				return nil
 			}
+			target = args[pos]
 			continue
 		}
 		arg, target = slip.NormalizeNumber(args[pos], target)
@@ -99,6 +100,8 @@ func (f *Gte) Call(s *slip.Scope, args slip.List, depth int) slip.Object {
 		case slip.Complex:
 			slip.TypePanic(s, depth, "numbers", arg, "real")
 		}
+		// Each number is compared to the one before it.
+		target = args[pos]
 	}
 	return slip.True
 }
